@@ -88,6 +88,8 @@ def reset_world(collect=False):
                         cc()
                     except Exception:  # noqa
                         pass
+    from . import threads
+    threads.reset_coop_locks()
     from . import faults
     faults.reset()
     _world_counter[1] += 1
